@@ -564,6 +564,12 @@ package dsl
 //@   ensures enum_value_comment_is_cleared: typeof(node) == *EnumValue && node.(*EnumValue) != nil ==> result.(*EnumValue).Comment == ""
 //@   ensures containers_are_rewritten_below: typeof(node) != *DefinitionMeta && typeof(node) != *ArrayDimension && typeof(node) != *EnumValue ==> called("dsl.(*Rewriter).DefaultRewrite")
 
+// Every definition that enters a schema goes through the stripper above, whatever it contains: a shortcut that decides
+// beforehand whether there is anything to strip has to know every node kind that carries a comment (array dimensions do).
+//@ func removeComments
+//@   property C04
+//@   ensures every_definition_goes_through_the_comment_stripper: called(Rewrite)
+
 // The types of a schema are ordered by their qualified name: the order of definitions and files cannot matter.
 //@ func GetProtocolSchema$2
 //@   property C04,C12,C13
